@@ -5,6 +5,7 @@ CONSTANTS
   Fixed = TRUE
   Fixed2 = TRUE
   Fixed3 = TRUE
+  Fixed4 = TRUE
   Emit = FALSE
 INVARIANTS WellFormed NoCommentOpener PunctGuarded WordsGuarded ExponentGuarded DotsGuarded EmitPair
 CHECK_DEADLOCK FALSE
